@@ -4,9 +4,10 @@ Proof half: coq/Properties/C01.v (refinement of the reference clauses of coq/Mem
 the model's exec, for all programs / byte strings / well-formed databases).
 Tie: the programs below run on the real server.Manager (virtual clock) and on the extracted
 model; every reply and every keyspace dump is compared (checks/memlib.py)."""
+import json
 import re
 
-from . import gen_str, memlib
+from . import gen_str, lib, memlib
 
 PID = "C01"
 _counts = {}
@@ -46,7 +47,78 @@ def post(ctx, d):
     return None, cov
 
 
+def tcp_run(d, text, tag="tcp"):
+    """One program file through server.Start over TCP (real clock build) and the model."""
+    prog, out, ver = d / (tag + ".prog"), d / (tag + ".trace"), d / (tag + ".verdict")
+    prog.write_text(text)
+    for f in (out, ver):
+        if f.exists():
+            f.unlink()
+    rc, log = lib.sh("%s tcprun %s %s %s" % (lib.BUILD / "harness", prog, out, d), cwd=d, timeout=300)
+    if rc != 0 or not out.exists():
+        return None, "", "tcp harness rc=%s log=%s" % (rc, log[-1500:])
+    rc, log = lib.sh("%s mem %s %s" % (lib.BUILD / "modelrun", out, ver), cwd=d, timeout=300)
+    if rc != 0 or not ver.exists():
+        return None, out.read_text(), "modelrun rc=%s log=%s" % (rc, log[-1500:])
+    return ver.read_text().splitlines(), out.read_text(), None
+
+
+def tcp_sample(ctx, nfiles):
+    """Random expiry-free programs through the real RESP parser, connection loop and reply
+    encoder (server.Start on a free port); replies compared with the model."""
+    ok, log = lib.ensure_harness()
+    d = lib.scratch("c01tcp-")
+    if not ok:
+        lib.violation(PID, dict(kind="tie-broken", what="real-clock harness build failed: " + log[-2000:]), found_input=False)
+        return 1, {}
+    steps = progs = 0
+    for i in range(nfiles):
+        cases = gen_str.tcp_programs(ctx.seed * 1000 + i)
+        text = "".join(c.text() for c in cases)
+        v, trace, err = tcp_run(d, text)
+        steps += sum(1 for l in trace.splitlines() if l.startswith("S "))
+        progs += len(cases)
+        mm = memlib.mismatching(v)
+        if err or mm:
+            allc = memlib.split_cases(text)
+            name = sorted(mm)[0] if mm else None
+            cl = [c for c in allc if name and memlib.case_name(c) == name]
+            case = cl[0] if cl else (allc[0] if allc else [])
+            lib.violation(PID, dict(kind="tcp-vs-model" if mm else "tcp-harness-failed", via="tcp", detail=mm.get(name) if mm else err,
+                                    case_lines=case, readable=memlib.decode_case(case),
+                                    note="replies read from a TCP connection to server.Start disagree with the model on this program"))
+            return 1, dict(tcp_steps=steps, tcp_programs=progs)
+    return 0, dict(tcp_steps=steps, tcp_programs=progs,
+                   tcp_correspondence="server.Start on a free port (real RESP parser, connection loop, reply encoder) vs extracted srv_exec: every reply compared; expiry-free programs, one connection and one SELECTed database per program")
+
+
 def run(ctx):
+    if ctx.replay:
+        r = json.load(open(ctx.replay))
+        if r.get("via") == "tcp":
+            ok, log = lib.ensure_harness()
+            memlib.build(ctx)
+            d = lib.scratch("c01tcp-")
+            v, trace, err = tcp_run(d, "\n".join(r.get("case_lines", [])) + "\n")
+            print(trace)
+            print("\n".join(v or []), err or "")
+            return 1 if (err or memlib.mismatching(v)) else 0
+    rc = run_main(ctx)
+    if ctx.replay:
+        return rc
+    rc2, cov = tcp_sample(ctx, 2 if ctx.tier == "quick" else 40)
+    evf = lib.VERIF / "evidence" / (PID + ".json")
+    if evf.exists():
+        ev = json.load(open(evf))
+        ev["coverage"].update(cov)
+        ev["coverage"]["evaluations"] = ev["coverage"].get("evaluations", 0) + cov.get("tcp_steps", 0)
+        ev["violations"] = int(ev.get("violations", 0)) + (1 if rc2 else 0)
+        ev["wall_s"] = round(ctx.wall(), 2)
+        evf.write_text(json.dumps(ev, indent=1))
+    return 1 if (rc or rc2) else 0
+
+
+def run_main(ctx):
     return memlib.run_family(
         ctx, PID, make_cases,
         rule=("every SET option subset x argument shape x letter case on a missing key / a string with a deadline / a key of "
